@@ -265,6 +265,7 @@ def run(rep, F, tier, only=None, rule="R2.6"):
         ring_whole(rep, F)
     if only is None or "polygon-composition" in only:
         polygon_composition(rep, F)
+        polygon_witness(rep, F)
     if only is None:
         container_composition(rep, F)
     RULE = "R2.6"
@@ -563,6 +564,98 @@ def polygon_composition(rep, F):
             rep.bad(RULE, key, "exterior %s / holes %s gives %s, expected %s" % (ext, holes, got, want), where=fn.loc())
     if n < 5:
         rep.bad(RULE, "compose:Polygon:rows", "only %d rows" % n, where=fn.loc())
+
+
+def polygon_witness(rep, F):
+    """Polygon::calculate_coordinate_position on polygons with 0, 1 and 2 holes (the hole list unrolled exactly; the ring test, the bounding boxes and
+    box tests answered by exact reference geometry): on every query point of a 9x9 grid the position is Outside / OnBoundary / Inside as exact
+    geometry says - EVERY hole counts, whichever order the holes are stored in, including a hole lying in the notch of another (L-shaped) hole,
+    i.e. inside that hole's bounding box."""
+    try:
+        fn = F.impl_method(COORDPOS_T, r"polygon::Polygon<T>$", None, "calculate_coordinate_position", crates=("geo",))
+    except KeyError as e:
+        rep.bad(RULE, "witness:Polygon:anchor", str(e))
+        return
+    LS = GT + "line_string::LineString"
+    sq = lambda a, b: [C(a, a), C(b, a), C(b, b), C(a, b), C(a, a)]
+    ext = sq(0, 8)
+    ell = [C(1, 1), C(7, 1), C(7, 2), C(2, 2), C(2, 7), C(1, 7), C(1, 1)]
+    notch = sq(4, 6)
+    cases = [[], [ell], [notch], [ell, notch], [notch, ell]]
+    calls = dict(CALLS)
+    calls["geo::algorithm::coordinate_position::coord_pos_relative_to_ring"] = lambda ev, a: Enum("geo::algorithm::coordinate_position::CoordPos", _pip(ev.ev(a[1])["0"], ev.ev(a[0])))
+    calls["vec!"] = lambda ev, a: list(ev.ev(a[0]))
+    calls["core::convert::AsRef::as_ref"] = lambda ev, a: ev.ev(a[0])
+    calls["alloc::vec::Vec::<T, A>::is_empty"] = lambda ev, a: len(ev.ev(a[0])) == 0
+    calls["alloc::vec::Vec::<T, A>::len"] = lambda ev, a: len(ev.ev(a[0]))
+
+    def m_bbox(ev, a):
+        v = ev.ev(a[0])
+        if isinstance(v, dict) and "exterior" in v:
+            v = v["exterior"]
+        if isinstance(v, dict) and "0" in v and isinstance(v["0"], list):
+            cs = v["0"]
+            if not cs:
+                return Enum("core::option::Option", "None")
+            return Enum("core::option::Option", "Some", [{"min": C(min(c["x"] for c in cs), min(c["y"] for c in cs)), "max": C(max(c["x"] for c in cs), max(c["y"] for c in cs))}])
+        if isinstance(v, dict) and set(v) == {"x", "y"}:
+            return {"min": v, "max": v}
+        raise NoModel("bounding_rect of %r" % (v,))
+
+    def m_intersects(ev, a):
+        x, c = ev.ev(a[0]), ev.ev(a[1])
+        if isinstance(x, dict) and set(x) == {"x", "y"}:
+            x, c = c, x
+        if isinstance(c, dict) and set(c) == {"x", "y"}:
+            if isinstance(x, dict) and set(x) == {"min", "max"}:
+                return x["min"]["x"] <= c["x"] <= x["max"]["x"] and x["min"]["y"] <= c["y"] <= x["max"]["y"]
+            if isinstance(x, dict) and "0" in x and isinstance(x["0"], list):
+                return any(on_segment(c, x["0"][i], x["0"][i + 1]) for i in range(len(x["0"]) - 1))
+        raise NoModel("intersects(%r, %r)" % (x, c))
+    for k in list(F.fns):
+        if k.endswith("::bounding_rect") and "BoundingRect" in k:
+            calls[k] = m_bbox
+        if k.endswith("::intersects") and "Intersects" in k and ("Rect<T>" in k or "Coord<T>" in k):
+            calls[k] = m_intersects
+    calls["geo::algorithm::bounding_rect::BoundingRect::bounding_rect"] = m_bbox
+    calls["geo::algorithm::intersects::Intersects::intersects"] = m_intersects
+    total = 0
+    for holes in cases:
+        n = len(holes)
+        h_t = ("call", "vec!", (("array", tuple(("opaque", "hole%d" % i) for i in range(n))),))
+        poly_t = ("&", ("adt", GT + "polygon::Polygon", "Polygon", (("opaque", "exterior"), h_t)))
+        ex = Symex(F, no_inline=[r"coord_pos_relative_to_ring$", r"BoundingRect.*::bounding_rect$", r"Intersects.*::intersects$"], loop_bound=n + 3, max_paths=20000, budget_s=60, concrete_iters=True)
+        try:
+            paths = [p for p in ex.run(fn, args=[poly_t, ("arg", 2), ("arg", 3), ("arg", 4)]) if p.kind != "cut"]
+        except Unanalysable as e:
+            rep.bad(RULE, "witness:Polygon:unanalysable", "%d hole(s): %s" % (n, e), where=fn.loc())
+            return
+        rets = [p for p in paths if p.kind == "ret"]
+        env0 = {("opaque", "exterior"): {"0": ext}}
+        for i, h in enumerate(holes):
+            env0[("opaque", "hole%d" % i)] = {"0": h}
+        for qx in range(9):
+            for qy in range(9):
+                q = C(qx, qy)
+                env = dict(env0)
+                env[("arg", 2)] = q
+                env[("deref", ("arg", 2))] = q
+                ev = Evaluator(F, env, calls)
+                try:
+                    hit = ev.select_path(rets)
+                    gots = {position_of(ex, ev, h) for h in hit}
+                except NoModel as e:
+                    rep.bad(RULE, "witness:Polygon:non-abstractable", "a decision of Polygon::calculate_coordinate_position is not a function of the ring tests and bounding boxes (%s)" % e, where=fn.loc())
+                    return
+                e_pos = _pip(ext, q)
+                h_pos = [_pip(h, q) for h in holes]
+                want = e_pos if e_pos != "Inside" else "OnBoundary" if "OnBoundary" in h_pos else "Outside" if "Inside" in h_pos else "Inside"
+                total += 1
+                if gots != {want}:
+                    rep.bad(RULE, "witness:Polygon", "polygon POLYGON(%s) with hole(s) %s: position of %s is %s in the path table, exact geometry gives %s" % (
+                        " ".join(fmt(v) for v in ext), "; ".join(" ".join(fmt(v) for v in h) for h in holes) or "none", fmt(q), "/".join(sorted(gots)) or "no row", want), where=fn.loc())
+                    return
+    rep.ok(RULE, "witness:Polygon[%d witnesses; 0, 1 and 2 holes]" % total)
 
 
 # ------------------------------------------------------------------ whole-ring tables (exact unrolling for rings of 4 and 5 coordinates)
